@@ -48,15 +48,21 @@ class Workload:
                 f.write("data")
             os.utime(inp, (1_600_000_000, 1_600_000_000))
         self.inp = inp
+        self.store = os.path.join(d, "vstore") if name == "bigvalue" else None
 
     def edits(self):
-        return {"deep": [("leafA", 1), ("mid", 1), ("top", 1)], "mixed": [("leafA", 1), ("recover", 1), ("leafB", 2)],
+        return {"bigvalue": [("leafA", 1), ("mid", 1)], "deep": [("leafA", 1), ("mid", 1), ("top", 1)], "mixed": [("leafA", 1), ("recover", 1), ("leafB", 2)],
                 "pipeline": [("readf", 1), ("writef", 2)], "tagged": [("leafA", 2)]}[self.name]
 
     def expr(self, tag="main"):
         T = hist.T
         if self.name == "deep":
             return T["deep"](self.x)
+        if self.name == "bigvalue":
+            # results and arguments large enough to be offloaded to the value store
+            W = wf_tasks.TASKS
+            big = W["mklist"](*["payload-%03d-" % i + "x" * 40 for i in range(3)], T["leafA"](self.x))
+            return [W["sumlist"]([T["mid"](self.y), 1]), W["ident"](big), W["ident"]("y" * 200)]
         if self.name == "mixed":
             return [T["top"](self.x, self.y), T["guarded"](3), {"k": T["mid"](self.y)}]
         if self.name == "pipeline":
@@ -69,15 +75,35 @@ class Workload:
         raise ValueError(self.name)
 
 
-def open_backend(path):
-    b = engine.new_backend(db_uri="sqlite:///" + path)
+def open_backend(path, store=None):
+    if store:
+        from redun import Scheduler
+        cfg = engine.make_config(db_uri="sqlite:///" + path, extra={"backend": {"value_store_path": store, "value_store_min_size": "60"}})
+        sch = Scheduler(config=cfg, job_status_interval=None)
+        sch.load()
+        b = sch.backend
+    else:
+        b = engine.new_backend(db_uri="sqlite:///" + path)
     b._db_retries_backoff = 0.0
     return b
 
 
+def value_store_audit(path, store):
+    """Value rows whose bytes were offloaded (empty placeholder) must have their bytes in the value store."""
+    if not store:
+        return []
+    con = dbaudit.connect(path)
+    try:
+        rows = con.execute("select value_hash from value where length(value)=0").fetchall()
+    finally:
+        con.close()
+    return ["Value %s is a placeholder for offloaded bytes that are not in the value store" % h[:8]
+            for (h,) in rows if not os.path.exists(os.path.join(store, h[:2], h[2:]))]
+
+
 def run_on(path, w, tag="main", crash=None, transient=None, uuid_seed=1):
     """Returns (kind, outcome key, FaultPlan)."""
-    backend = open_backend(path)
+    backend = open_backend(path, getattr(w, "store", None))
     plan = faults.FaultPlan(backend, crash=crash, transient=transient)
     saved = uuid.uuid4
     uuid.uuid4 = seeded_uuid(uuid_seed)
@@ -132,7 +158,9 @@ def crash_case(ctx, wname, k, when, scratch, base_dump=None):
         return
     ctx.count("crash_points_fired")
     ctx.nontrivial(wit)
-    problems = dbaudit.referential_audit(path)
+    problems = dbaudit.referential_audit(path) + value_store_audit(path, w.store)
+    if w.store:
+        ctx.count("value_store_audits")
     if problems:
         ctx.violation(classify_crash(problems, ""), "database not referentially consistent after death %s commit %d: %s" % (
             when, k, problems[:3]), wit)
@@ -185,7 +213,7 @@ def crash_case(ctx, wname, k, when, scratch, base_dump=None):
                     mode, "edit %s" % (e,) if e else "same program", when, k, key2, exp)
                 ctx.violation(classify_crash([], repr(key2)), msg, dict(wit, mode=mode, edit=e))
                 break
-        pr = dbaudit.referential_audit(p2)
+        pr = dbaudit.referential_audit(p2) + value_store_audit(p2, w.store)
         if pr and not problems:
             ctx.violation(classify_crash(pr, ""), "database inconsistent after recovery: %s" % pr[:3], dict(wit, mode=mode))
     shutil.rmtree(d, ignore_errors=True)
@@ -306,7 +334,7 @@ def shard_subprocess_validation(ctx, wname, ks):
         shutil.rmtree(scratch, ignore_errors=True)
 
 
-WORKLOADS = ["deep", "mixed", "pipeline", "tagged"]
+WORKLOADS = ["deep", "mixed", "pipeline", "tagged", "bigvalue"]
 
 
 def main(ctx):
@@ -318,9 +346,9 @@ def main(ctx):
     ctx.extra["workload_sizes"] = {w: {"commits": c, "statements": s} for w, (c, s) in sizes.items()}
     jobs = []
     quick = ctx.is_quick()
-    wl = ["deep", "pipeline"] if quick else WORKLOADS
+    wl = ["deep", "bigvalue"] if quick else WORKLOADS
     if quick and ctx.seed % 2:
-        wl = ["mixed", "tagged"]
+        wl = ["mixed", "tagged", "pipeline"]
     total_points = 0
     for w in wl:
         nc, ns = sizes[w]
